@@ -61,6 +61,7 @@ static volatile long seqno = 0;
 static pthread_mutex_t mu = PTHREAD_MUTEX_INITIALIZER;
 static char *fdpath[MAXFD];
 static char fdwr[MAXFD];
+static char copied[MAXFD];   /* copy_file_range already moved data into this descriptor */
 
 struct rule {
     char call[16];
@@ -259,6 +260,7 @@ static void track(int fd, const char *path, int wr) {
     free(fdpath[fd]);
     fdpath[fd] = path ? strdup(path) : NULL;
     fdwr[fd] = (char)wr;
+    copied[fd] = 0;
     pthread_mutex_unlock(&mu);
 }
 
@@ -744,7 +746,13 @@ ssize_t copy_file_range(int fin, off64_t *oin, int fout, off64_t *oout, size_t l
     if (!po && !pi) return real(fin, oin, fout, oout, len, flags);
     struct dec d = decide("copy", po, pi);
     ssize_t ret; int e;
+    /* "cannot be used here" errnos are only possible on the first call for a file pair (the kernel decides that before copying
+     * anything; Rust's std asserts it): once data went through, such a planned errno is delivered as EIO */
+    if (d.fail && fout >= 0 && fout < MAXFD && copied[fout] &&
+        (d.err == EPERM || d.err == ENOSYS || d.err == EOPNOTSUPP || d.err == EINVAL || d.err == EBADF || d.err == EXDEV))
+        d.err = EIO;
     if (d.fail) { ret = -1; e = d.err; } else { ret = real(fin, oin, fout, oout, len, flags); e = errno; }
+    if (ret > 0 && fout >= 0 && fout < MAXFD) copied[fout] = 1;
     logline("copy", po, pi, ret, ret < 0 ? e : 0, d.fail, (long)len, 0);
     after(&d, po, pi);
     errno = e;
@@ -759,7 +767,11 @@ ssize_t sendfile(int fout, int fin, off_t *off, size_t len) {
     if (!po && !pi) return real(fout, fin, off, len);
     struct dec d = decide("copy", po, pi);
     ssize_t ret; int e;
+    if (d.fail && fout >= 0 && fout < MAXFD && copied[fout] &&
+        (d.err == EPERM || d.err == ENOSYS || d.err == EOPNOTSUPP || d.err == EINVAL || d.err == EBADF || d.err == EXDEV))
+        d.err = EIO;          /* see copy_file_range */
     if (d.fail) { ret = -1; e = d.err; } else { ret = real(fout, fin, off, len); e = errno; }
+    if (ret > 0 && fout >= 0 && fout < MAXFD) copied[fout] = 1;
     logline("copy", po, pi, ret, ret < 0 ? e : 0, d.fail, (long)len, 1);
     after(&d, po, pi);
     errno = e;
@@ -773,9 +785,22 @@ ssize_t sendfile64(int fout, int fin, off64_t *off, size_t len) {
     if (!po && !pi) return real(fout, fin, off, len);
     struct dec d = decide("copy", po, pi);
     ssize_t ret; int e;
+    if (d.fail && fout >= 0 && fout < MAXFD && copied[fout] &&
+        (d.err == EPERM || d.err == ENOSYS || d.err == EOPNOTSUPP || d.err == EINVAL || d.err == EBADF || d.err == EXDEV))
+        d.err = EIO;          /* see copy_file_range */
     if (d.fail) { ret = -1; e = d.err; } else { ret = real(fout, fin, off, len); e = errno; }
+    if (ret > 0 && fout >= 0 && fout < MAXFD) copied[fout] = 1;
     logline("copy", po, pi, ret, ret < 0 ? e : 0, d.fail, (long)len, 1);
     after(&d, po, pi);
     errno = e;
     return ret;
+}
+
+/* A delayed SIGKILL: FSSHIM_KILL_DELAY_MS=<n> lets a freshly spawned child run for n ms before the parent's kill takes
+ * effect - the schedule in which the scheduler runs the child first. */
+int kill(pid_t pid, int sig) {
+    REAL(kill);
+    const char *d = getenv("FSSHIM_KILL_DELAY_MS");
+    if (d && sig == SIGKILL) usleep((useconds_t)atoi(d) * 1000);
+    return real(pid, sig);
 }
